@@ -2,6 +2,7 @@ package main
 
 import (
 	"fmt"
+	"math"
 	"math/big"
 
 	"github.com/unixpickle/model3d/model3d"
@@ -209,6 +210,14 @@ func runSoupQueries(c *hlib.Ctx, n int) {
 				if qTriBall(t, qv(ctr), qq) {
 					want = true
 				}
+			}
+			dmin := math.Inf(1)
+			for _, t := range tris {
+				dmin = math.Min(dmin, t.Dist(ctr))
+			}
+			if !separated(r, dmin) {
+				c.Stat("soup.sphere.tangent-skipped", 1) // rounding decides at exact tangency
+				continue
 			}
 			got := col.SphereCollision(ctr, r)
 			c.Stat("soup.sphere."+b01(want), 1)
